@@ -105,6 +105,36 @@ def exc_sig(exc):
     return '%s@%s' % (type(exc).__name__, where(exc))
 
 
+class HeldAtoms:
+    """the engine as seen by a caller that keeps the Atom objects it once obtained: atom(name)
+    returns the object from the first time it was asked for, everything else is the engine's"""
+
+    def __init__(self, yp, names=()):
+        self._yp = yp
+        self._atoms = {}
+        for nm in names:
+            self.atom(nm)
+
+    def atom(self, name, module=None):
+        a = self._atoms.get(name)
+        if a is None:
+            a = self._atoms[name] = self._yp.atom(name)
+        return a
+
+    def __getattr__(self, name):
+        return getattr(self._yp, name)
+
+
+def atom_names(t, acc=None):
+    acc = set() if acc is None else acc
+    if t[0] == 'a':
+        acc.add(t[1])
+    elif t[0] == 'f':
+        for x in t[2]:
+            atom_names(x, acc)
+    return acc
+
+
 def new_engine(pytext=None, overwrite=True):
     yp = YP()
     if pytext is not None:
